@@ -124,6 +124,223 @@ theorem holds (c : Conv) (t : Triple) (v : PyVal) (r : Int) (n : Nat) (hr : toRa
     · cases hd
     · split at hd <;> cases hd
 
+/-- **held_value_noop** (documented carve-out of the statement's first sentence): a request whose raw
+encoding equals the value held is a no-op returning True — also when the controller reported that
+value outside its own bounds; nothing is transmitted and nothing changes (`reject_inert`), but no
+ValueError is raised -/
+theorem held_value_noop (c : Conv) (t : Triple) (v : PyVal) (hr : toRaw c v = .ok t.value) :
+    ParamSet.decide c t v = .noop := by
+  simp [ParamSet.decide, hr]
+
+example : ParamSet.decide ⟨.plain, 1, 1, 0, 6⟩ ⟨5, 10, 20⟩ (.int 5) = .noop := by decide
+
+/-! ### the report / set machine: reports replace the triple, the range is checked at call time -/
+
+/-- **report_always_replaces**: a controller report replaces the held triple — value, minimum and
+maximum — in every state, also while a set is pending / a call is in flight and also when the
+reported value equals the value held or the value held before the pending set -/
+theorem report_always_replaces (c : Conv) (s : MState) (t : Triple) :
+    (stepM c s (.report t)).1.held = t := rfl
+
+theorem attempt_keeps_bounds (s : MState) :
+    (attempt s).1.held.min = s.held.min ∧ (attempt s).1.held.max = s.held.max := by
+  unfold attempt
+  split
+  · exact ⟨rfl, rfl⟩
+  · split
+    · exact ⟨rfl, rfl⟩
+    · split <;> exact ⟨rfl, rfl⟩
+
+/-- neither a `set` call nor a retry changes the bounds held -/
+theorem nonreport_keeps_bounds (c : Conv) (s : MState) (ev : MEvent) (h : ∀ t, ev ≠ .report t) :
+    (stepM c s ev).1.held.min = s.held.min ∧ (stepM c s ev).1.held.max = s.held.max := by
+  cases ev with
+  | report t => exact absurd rfl (h t)
+  | tick => exact attempt_keeps_bounds s
+  | set v n =>
+    simp only [stepM]
+    split
+    · exact ⟨rfl, rfl⟩
+    · split
+      · next r _ =>
+        have := attempt_keeps_bounds
+          { held := { s.held with value := r }, pending := true, previous := s.held.value,
+            call := some ⟨r, n, s.held.min, s.held.max⟩ }
+        exact this
+      · exact ⟨rfl, rfl⟩
+
+/-- after any history the bounds held are those of the last report (the initial ones if the
+controller has not reported since) -/
+theorem bounds_are_last_report (c : Conv) : ∀ (evs : List MEvent) (s : MState),
+    (runM c s evs).1.held.min = ((lastReport evs).getD s.held).min ∧
+    (runM c s evs).1.held.max = ((lastReport evs).getD s.held).max := by
+  intro evs
+  induction evs with
+  | nil => intro s; exact ⟨rfl, rfl⟩
+  | cons ev rest ih =>
+    intro s
+    cases ev with
+    | report t =>
+      have := ih (update s t)
+      simp only [runM, stepM, lastReport]
+      cases hl : lastReport rest with
+      | none => rw [hl] at this; simpa [update] using this
+      | some t' => rw [hl] at this; simpa using this
+    | set v n =>
+      have := ih (stepM c s (.set v n)).1
+      have hb := nonreport_keeps_bounds c s (.set v n) (fun t h => by cases h)
+      simp only [runM, lastReport]
+      cases hl : lastReport rest with
+      | none => rw [hl] at this; simp only [Option.getD_none] at this ⊢; rw [← hb.1, ← hb.2]; exact this
+      | some t' => rw [hl] at this; simpa using this
+    | tick =>
+      have := ih (stepM c s .tick).1
+      have hb := nonreport_keeps_bounds c s .tick (fun t h => by cases h)
+      simp only [runM, lastReport]
+      cases hl : lastReport rest with
+      | none => rw [hl] at this; simp only [Option.getD_none] at this ⊢; rw [← hb.1, ← hb.2]; exact this
+      | some t' => rw [hl] at this; simpa using this
+
+/-- **checked_against_last_report** (the DECISION): for EVERY history of reports, calls and retries
+that leaves no call in flight, a further `set` whose raw encoding differs from the held value is
+refused exactly when the encoding lies outside the bounds of the LAST report -/
+theorem checked_against_last_report (c : Conv) (s0 : MState) (evs : List MEvent) (t : Triple)
+    (hlast : lastReport evs = some t) (hidle : (runM c s0 evs).1.call = none)
+    (v : PyVal) (n : Nat) (r : Int) (hr : toRaw c v = .ok r) (hne : r ≠ (runM c s0 evs).1.held.value) :
+    ∃ o rest, (stepM c (runM c s0 evs).1 (.set v n)).2 = .decided o :: rest ∧
+      (o = .reject ↔ (r < t.min ∨ r > t.max)) := by
+  obtain ⟨hmin, hmax⟩ := bounds_are_last_report c evs s0
+  rw [hlast] at hmin hmax
+  simp only [Option.getD_some] at hmin hmax
+  generalize (runM c s0 evs).1 = s at *
+  have hiff := reject_iff c s.held v r hr hne
+  rw [hmin, hmax] at hiff
+  simp only [stepM, hidle]
+  cases hd : ParamSet.decide c s.held v with
+  | transmit r' => exact ⟨_, _, rfl, by rw [← hiff, hd]⟩
+  | noop => exact ⟨_, _, rfl, by rw [← hiff, hd]⟩
+  | reject => exact ⟨_, _, rfl, by rw [← hiff, hd]⟩
+  | typeError => exact ⟨_, _, rfl, by rw [← hiff, hd]⟩
+  | otherError => exact ⟨_, _, rfl, by rw [← hiff, hd]⟩
+
+/-- a call in flight carries a requested value within the bounds recorded when it was accepted -/
+def CallOK (s : MState) : Prop := ∀ k, s.call = some k → k.lo ≤ k.r ∧ k.r ≤ k.hi
+
+theorem attempt_ok (s : MState) (h : CallOK s) :
+    CallOK (attempt s).1 ∧ ∀ o ∈ (attempt s).2, ∀ r lo hi cl ch, o = .tx r lo hi cl ch → lo ≤ r ∧ r ≤ hi := by
+  unfold attempt
+  cases hc : s.call with
+  | none => exact ⟨h, fun o ho => by cases ho⟩
+  | some k =>
+    have hk := h k hc
+    simp only []
+    split
+    · exact ⟨fun k' h' => (by cases h'), fun o ho r lo hi cl ch he => (by simp at ho; subst ho; cases he)⟩
+    · split
+      · exact ⟨fun k' h' => (by cases h'), fun o ho r lo hi cl ch he => (by simp at ho; subst ho; cases he)⟩
+      · refine ⟨fun k' h' => ?_, fun o ho r lo hi cl ch he => ?_⟩
+        · simp only [Option.some.injEq] at h'; subst h'; exact hk
+        · simp only [List.mem_singleton] at ho; subst ho
+          simp only [MOut.tx.injEq] at he
+          obtain ⟨rfl, rfl, rfl, _, _⟩ := he
+          exact hk
+
+theorem stepM_ok (c : Conv) (s : MState) (h : CallOK s) (ev : MEvent) :
+    CallOK (stepM c s ev).1 ∧
+      ∀ o ∈ (stepM c s ev).2, ∀ r lo hi cl ch, o = .tx r lo hi cl ch → lo ≤ r ∧ r ≤ hi := by
+  cases ev with
+  | report t => exact ⟨fun k hk => h k hk, fun o ho => by cases ho⟩
+  | tick => exact attempt_ok s h
+  | set v n =>
+    simp only [stepM]
+    split
+    · exact ⟨h, fun o ho => by cases ho⟩
+    · split
+      · next r hd =>
+        obtain ⟨_, hlo, hhi, _, _, _⟩ := accepted c s.held v r 0 hd
+        have := attempt_ok
+          { held := { s.held with value := r }, pending := true, previous := s.held.value,
+            call := some ⟨r, n, s.held.min, s.held.max⟩ }
+          (fun k hk => by simp only [Option.some.injEq] at hk; subst hk; exact ⟨hlo, hhi⟩)
+        refine ⟨this.1, fun o ho r' lo hi cl ch he => ?_⟩
+        rcases List.mem_cons.mp ho with rfl | ho
+        · cases he
+        · exact this.2 o ho r' lo hi cl ch he
+      · exact ⟨h, fun o ho r' lo hi cl ch he => by simp at ho; subst ho; cases he⟩
+
+/-- **tx_in_range_at_call**: over EVERY history of reports, calls and retries, every transmitted set
+request carries a raw value within the inclusive bounds held when its call was accepted (the ghost
+fields `lo`,`hi` of `.tx` are exactly `held.min`,`held.max` at acceptance, see `stepM`) -/
+theorem tx_in_range_at_call (c : Conv) : ∀ (evs : List MEvent) (s : MState), CallOK s →
+    ∀ o ∈ (runM c s evs).2, ∀ r lo hi cl ch, o = .tx r lo hi cl ch → lo ≤ r ∧ r ≤ hi := by
+  intro evs
+  induction evs with
+  | nil => intro s _ o ho; cases ho
+  | cons ev rest ih =>
+    intro s hs o ho
+    obtain ⟨hs1, hout⟩ := stepM_ok c s hs ev
+    simp only [runM] at ho
+    rcases List.mem_append.mp ho with ho | ho
+    · exact hout o ho
+    · exact ih _ hs1 o ho
+
+/-- the full second sentence of C06 over histories: every transmitted set request lies within the
+bounds the controller LAST reported before the transmission (the ghost fields `curLo`,`curHi`) -/
+def tx_in_last_reported_range_full : Prop :=
+  ∀ (c : Conv) (s : MState), s.call = none → ∀ (evs : List MEvent),
+    ∀ o ∈ (runM c s evs).2, ∀ r lo hi cl ch, o = .tx r lo hi cl ch → cl ≤ r ∧ r ≤ ch
+
+/-- **open finding F7**: the full clause is false of the code as it is — `set(42)` on (10, 0, 100),
+a report (10, 0, 20) during the call, and the retry transmits 42 although the last reported maximum
+is 20 (the range is checked once, at call time; retries re-assert the value) -/
+theorem tx_in_last_reported_range_full_false : ¬ tx_in_last_reported_range_full := by
+  intro h
+  have := h ⟨.plain, 1, 1, 0, 6⟩ ⟨⟨10, 0, 100⟩, false, 0, none⟩ rfl
+    [.set (.int 42) 2, .report ⟨10, 0, 20⟩, .tick] (.tx 42 0 100 0 20) (by decide) 42 0 100 0 20 rfl
+  omega
+
+theorem attempt_tx (s : MState) : ∀ o ∈ (attempt s).2, ∀ r lo hi cl ch, o = .tx r lo hi cl ch →
+    ∃ k, s.call = some k ∧ r = k.r ∧ cl = s.held.min ∧ ch = s.held.max := by
+  unfold attempt
+  cases hc : s.call with
+  | none => intro o ho; cases ho
+  | some k =>
+    simp only []
+    split
+    · intro o ho r lo hi cl ch he; simp at ho; subst ho; cases he
+    · split
+      · intro o ho r lo hi cl ch he; simp at ho; subst ho; cases he
+      · intro o ho r lo hi cl ch he
+        simp only [List.mem_singleton] at ho; subst ho
+        simp only [MOut.tx.injEq] at he
+        obtain ⟨rfl, _, _, rfl, rfl⟩ := he
+        exact ⟨k, rfl, rfl, rfl, rfl⟩
+
+/-- what IS true of retries: without a report between acceptance and transmission the bounds are
+unchanged, so the first attempt of every call is within the last reported bounds -/
+theorem first_attempt_in_last_reported_range (c : Conv) (s : MState) (hidle : s.call = none) (v : PyVal) (n : Nat) :
+    ∀ o ∈ (stepM c s (.set v n)).2, ∀ r lo hi cl ch, o = .tx r lo hi cl ch →
+      cl = s.held.min ∧ ch = s.held.max ∧ cl ≤ r ∧ r ≤ ch := by
+  intro o ho r lo hi cl ch he
+  simp only [stepM, hidle] at ho
+  split at ho
+  · next r' hd =>
+    obtain ⟨_, hlo, hhi, _, _, _⟩ := accepted c s.held v r' 0 hd
+    rcases List.mem_cons.mp ho with rfl | ho
+    · cases he
+    · obtain ⟨k, hk, hr, hcl, hch⟩ := attempt_tx _ o ho r lo hi cl ch he
+      simp only [Option.some.injEq] at hk
+      subst hk
+      simp only at hr hcl hch
+      subst hr hcl hch
+      exact ⟨rfl, rfl, hlo, hhi⟩
+  · simp at ho; subst ho; cases he
+
+example : (runM ⟨.scaledOff, 1, 1, 0, 6⟩ ⟨⟨50, 20, 80⟩, false, 0, none⟩
+    [.set (.int 60) 1, .tick, .report ⟨50, 20, 55⟩, .set (.int 58) 1]).2 =
+      [.decided (.transmit 60), .tx 60 20 80 20 80, .returned false, .decided .reject] := by
+  decide +kernel
+
 /-! non-vacuity: a scaled conversion (multiplier 0.1 as a double), bounds 1.0 .. 4.0; a switch -/
 example : ParamSet.set (⟨.scaledOff, 3602879701896397, 36028797018963968, 0, 6⟩ : Conv) ⟨10, 10, 40⟩ (.float ⟨41, 10⟩) 2 = ⟨.reject, ⟨10, 10, 40⟩, []⟩ := by
   decide +kernel
